@@ -1,6 +1,6 @@
 (** C12 — proofs about the parser mirror of Model/C11.v (parse_points). *)
 From Verif Require Import Base.Prelude Model.C11 Model.C12.
-From Coq Require Import ZifyBool ZifyN.
+From Coq Require Import ZifyBool ZifyN Sorted.
 Local Open Scope N_scope.
 
 (** * Generic helpers *)
@@ -90,4 +90,690 @@ Proof.
           - inversion Eq; subst. apply andb_true_iff in Wa as [_ Wa]. apply andb_true_iff in Wb as [_ Wb]. eauto. }
         rewrite E in E'. assert (c = HASH) by (eapply (HH ws ws' c HASH r r'); auto).
         subst c. discriminate.
+Qed.
+
+(** * Inversion of parsePoint *)
+Lemma parse_point_inv prec dflt buf p :
+  parse_point prec dflt buf = Ok p ->
+  exists r1 r2 ts r3 ps,
+    scan_key buf = Ok (rp_key p, r1) /\ rp_key p <> [] /\ (blen (rp_key p) <=? MaxKeyLength) = true /\
+    scan_fields r1 = Ok (rp_fields p, r2) /\ rp_fields p <> [] /\
+    split_fields (blen (rp_key p)) (rp_fields p) = Ok ps /\
+    scan_time r2 = Ok (ts, r3) /\
+    ((ts = [] /\ rp_time p = trunc_time dflt prec) \/
+     (exists v, parse_int64 ts = Some v /\ safe_calc_time v prec = Some (rp_time p) /\
+                forallb (N.eqb SP) r3 = true)).
+Proof.
+  unfold parse_point. intro H.
+  destruct (scan_key buf) as [[key r1]|] eqn:K; [|discriminate].
+  destruct key as [|k0 key]; [discriminate|].
+  destruct (MaxKeyLength <? blen (k0 :: key)) eqn:L; [discriminate|].
+  destruct (scan_fields r1) as [[fields r2]|] eqn:F; [|discriminate].
+  destruct fields as [|f0 fields]; [discriminate|].
+  destruct (split_fields (blen (k0 :: key)) (f0 :: fields)) as [ps|] eqn:W; [|discriminate].
+  destruct (scan_time r2) as [[ts r3]|] eqn:T; [|discriminate].
+  destruct ts as [|t0 ts].
+  - inversion H; subst; cbn. exists r1, r2, [], r3, ps. repeat split; auto; try discriminate.
+    apply N.leb_le. apply N.ltb_ge in L. exact L.
+  - destruct (parse_int64 (t0 :: ts)) as [v|] eqn:PI; [|discriminate].
+    destruct (safe_calc_time v prec) as [t|] eqn:SC; [|discriminate].
+    destruct (forallb (N.eqb SP) r3) eqn:FA; [|discriminate].
+    inversion H; subst; cbn. exists r1, r2, (t0 :: ts), r3, ps. repeat split; auto; try discriminate.
+    + apply N.leb_le. apply N.ltb_ge in L. exact L.
+    + right. exists v. auto.
+Qed.
+
+(** * Non-empty measurement *)
+Lemma mcons_MFld c r m rest : mcons c r = MFld m rest -> exists m', r = MFld m' rest /\ m = c :: m'.
+Proof. destruct r; cbn; intro H; inversion H; eauto. Qed.
+Lemma mcons_MTag c r m rest : mcons c r = MTag m rest -> exists m', r = MTag m' rest /\ m = c :: m'.
+Proof. destruct r; cbn; intro H; inversion H; eauto. Qed.
+
+Lemma scan_meas_head l m rest :
+  scan_meas l = MFld m rest \/ scan_meas l = MTag m rest ->
+  exists c m', m = c :: m' /\ (c =? COMMA) = false.
+Proof.
+  destruct l as [|c t]; cbn; [intros [H|H]; discriminate|].
+  destruct (c =? COMMA) eqn:E; [intros [H|H]; discriminate|].
+  intros [H|H]; [apply mcons_MFld in H|apply mcons_MTag in H]; destruct H as [m' [_ ->]]; eauto.
+Qed.
+
+Lemma scan_key_head buf key r :
+  scan_key buf = Ok (key, r) -> exists c k', key = c :: k' /\ (c =? COMMA) = false.
+Proof.
+  unfold scan_key. destruct (scan_meas (skip_ws buf)) as [m rest0|m rest0| |] eqn:M; try discriminate.
+  - destruct (scan_meas_head _ _ _ (or_intror M)) as [c [m' [-> Hc]]].
+    destruct (scan_tags KFirst 0 rest0) as [[tags rest]|]; [|discriminate].
+    destruct (existsb _ tags); [discriminate|].
+    destruct (first_pass tags); try discriminate.
+    + intro H; inversion H; subst. cbn. eauto.
+    + destruct (adjacent_dup _); [discriminate|]. intro H; inversion H; subst. cbn. eauto.
+  - destruct (scan_meas_head _ _ _ (or_introl M)) as [c [m' [-> Hc]]].
+    intro H; inversion H; subst. eauto.
+Qed.
+
+Lemma unescape4_nonempty l : l <> [] -> unescape4 l <> [].
+Proof.
+  destruct l as [|c t]; [congruence|]. intros _. cbn.
+  destruct (c =? BSL); [|discriminate].
+  destruct t as [|a t2]; [discriminate|]. destruct (is_esc_char a); discriminate.
+Qed.
+
+Lemma name_of_nonempty c k : (c =? COMMA) = false -> name_of (c :: k) <> [].
+Proof.
+  intro H. unfold name_of, scan_to. cbn [scan_to_loop]. rewrite H. cbn [andb pcons fst].
+  apply unescape4_nonempty. discriminate.
+Qed.
+
+(** * Representable timestamp *)
+Lemma safe_calc_time_ok v prec t : safe_calc_time v prec = Some t -> time_ok t = true.
+Proof.
+  unfold safe_calc_time. destruct (safe_signed_mult v (prec_mult prec)); [|discriminate].
+  destruct (time_ok z) eqn:E; [|discriminate]. intro H; inversion H; subst; exact E.
+Qed.
+
+(** * Fields: at least one, and series key + 4 + field key within MaxKeyLength *)
+Lemma list_len_ind {A} (P : list A -> Prop) :
+  (forall l, (forall l', (length l' < length l)%nat -> P l') -> P l) -> forall l, P l.
+Proof.
+  intros H l. assert (G : forall n l, (length l < n)%nat -> P l).
+  { induction n; intros l0 Hl; [lia|]. apply H. intros l' Hl'. apply IHn. lia. }
+  apply (G (S (length l))). lia.
+Qed.
+
+Lemma pushk_ok c r ps : pushk c r = Ok ps ->
+  exists ps0, r = Ok ps0 /\
+    ps = match ps0 with (k, v) :: ps' => (c :: k, v) :: ps' | [] => [([c], [])] end.
+Proof. destruct r as [[|[k v] ps']|]; cbn; intro H; inversion H; subst; eauto. Qed.
+Lemma pushv_ok c r ps : pushv c r = Ok ps ->
+  exists ps0, r = Ok ps0 /\
+    ps = match ps0 with (k, v) :: ps' => (k, c :: v) :: ps' | [] => [([], [c])] end.
+Proof. destruct r as [[|[k v] ps']|]; cbn; intro H; inversion H; subst; eauto. Qed.
+Lemma newpair_ok r ps : newpair r = Ok ps -> exists ps', ps = ([], []) :: ps' /\ r = Ok ps'.
+Proof. destruct r; cbn; intro H; inversion H; eauto. Qed.
+
+Lemma blen_cons c l : blen (c :: l) = 1 + blen l.
+Proof. unfold blen. cbn [length]. lia. Qed.
+
+Definition fbound (klen : N) (kv : bytes * bytes) : Prop := klen + 4 + blen (fst kv) <= MaxKeyLength.
+
+(** Invariant of the results of split_fields_st: in key mode the pair under construction
+    has [n] more key bytes to its left; in value mode its key part is still empty. *)
+Definition sf_inv (klen : N) (m : wmode) (ps : list (bytes * bytes)) : Prop :=
+  match m with
+  | WKey _ _ n => exists k v r, ps = (k, v) :: r /\ klen + 4 + n + blen k <= MaxKeyLength /\ Forall (fbound klen) r
+  | WVal _ => exists v r, ps = ([], v) :: r /\ Forall (fbound klen) r
+  end.
+
+Lemma split_fields_st_inv klen : forall l m ps,
+  split_fields_st klen m l = Ok ps -> sf_inv klen m ps.
+Proof.
+  induction l as [l IH] using list_len_ind. intros m ps H.
+  destruct l as [|c t].
+  - destruct m; cbn in H; [discriminate|]. inversion H; subst. cbn. eauto.
+  - assert (IHt : forall m ps, split_fields_st klen m t = Ok ps -> sf_inv klen m ps)
+      by (intros; eapply IH; eauto; cbn; lia).
+    destruct m as [first prev n|quoted]; cbn [split_fields_st] in H.
+    + destruct ((c =? EQ) && (first || negb (prev =? BSL))) eqn:E.
+      * destruct t as [|t0 t']; [discriminate|].
+        destruct (MaxKeyLength <? klen + 4 + n) eqn:L; [discriminate|].
+        apply IHt in H. cbn in H. destruct H as [v [r [-> H]]].
+        cbn. exists [], v, r. split; [reflexivity|]. split; [|exact H].
+        apply N.ltb_ge in L. unfold blen; cbn. lia.
+      * apply pushk_ok in H as [ps0 [H ->]]. apply IHt in H. cbn in H.
+        destruct H as [k [v [r [-> [H1 H2]]]]]. cbn. exists (c :: k), v, r.
+        split; [reflexivity|]. split; [|exact H2]. rewrite blen_cons. lia.
+    + assert (OTHER : forall ps,
+                (if c =? DQ then pushv c (split_fields_st klen (WVal (negb quoted)) t)
+                 else if (c =? COMMA) && negb quoted then
+                   match t with [] => Ok [([], [])] | _ => newpair (split_fields_st klen (WKey true 0 0) t) end
+                 else pushv c (split_fields_st klen (WVal quoted) t)) = Ok ps ->
+                sf_inv klen (WVal quoted) ps).
+      { intros ps0 H0. destruct (c =? DQ).
+        - apply pushv_ok in H0 as [ps1 [H0 ->]]. apply IHt in H0. cbn in H0.
+          destruct H0 as [v' [r' [-> F']]]. cbn. eauto.
+        - destruct ((c =? COMMA) && negb quoted).
+          + destruct t as [|t0 t']; [inversion H0; subst; cbn; eauto|].
+            apply newpair_ok in H0 as [ps' [-> H0]]. apply IHt in H0. cbn in H0.
+            destruct H0 as [k [v [r [-> [H1 H2]]]]].
+            cbn. exists [], ((k, v) :: r). split; [reflexivity|]. constructor; [unfold fbound; cbn; lia|exact H2].
+          + apply pushv_ok in H0 as [ps1 [H0 ->]]. apply IHt in H0. cbn in H0.
+            destruct H0 as [v' [r' [-> F']]]. cbn. eauto. }
+      destruct (c =? BSL); [|exact (OTHER _ H)].
+      destruct t as [|a t2]; [exact (OTHER _ H)|].
+      destruct ((a =? DQ) || (a =? BSL)); [|exact (OTHER _ H)].
+      apply pushv_ok in H as [ps1 [H ->]]. apply pushv_ok in H as [ps2 [H ->]].
+      eapply IH in H; [|cbn; lia]. cbn in H. destruct H as [v' [r' [-> F']]]. cbn. eauto.
+Qed.
+
+Lemma split_fields_bound klen fields ps :
+  split_fields klen fields = Ok ps -> Forall (fbound klen) ps /\ (fields <> [] -> ps <> []).
+Proof.
+  unfold split_fields. destruct fields as [|f0 fs]; [intro H; inversion H; subst; split; [constructor|congruence]|].
+  intro H. apply split_fields_st_inv in H. cbn in H. destruct H as [k [v [r [-> [H1 H2]]]]].
+  split; [|discriminate]. constructor; [unfold fbound; cbn; lia|exact H2].
+Qed.
+
+(** the split itself does not depend on the key length (only the size check does) *)
+Lemma split_fields_st_klen0 klen : forall l m ps,
+  split_fields_st klen m l = Ok ps -> split_fields_st 0 m l = Ok ps.
+Proof.
+  induction l as [l IH] using list_len_ind. intros m ps H.
+  destruct l as [|c t]; [destruct m; cbn in *; congruence|].
+  assert (IHt : forall m ps, split_fields_st klen m t = Ok ps -> split_fields_st 0 m t = Ok ps)
+    by (intros; eapply IH; eauto; cbn; lia).
+  destruct m as [first prev n|quoted]; cbn [split_fields_st] in *.
+  - destruct ((c =? EQ) && (first || negb (prev =? BSL))).
+    + destruct t as [|t0 t']; [discriminate|].
+      destruct (MaxKeyLength <? klen + 4 + n) eqn:L; [discriminate|].
+      assert (L0 : (MaxKeyLength <? 0 + 4 + n) = false) by (apply N.ltb_ge; apply N.ltb_ge in L; lia).
+      rewrite L0. apply IHt. exact H.
+    + apply pushk_ok in H as [ps0 [H ->]]. rewrite (IHt _ _ H). destruct ps0 as [|[? ?] ?]; reflexivity.
+  - assert (OTHER : forall ps,
+                (if c =? DQ then pushv c (split_fields_st klen (WVal (negb quoted)) t)
+                 else if (c =? COMMA) && negb quoted then
+                   match t with [] => Ok [([], [])] | _ => newpair (split_fields_st klen (WKey true 0 0) t) end
+                 else pushv c (split_fields_st klen (WVal quoted) t)) = Ok ps ->
+                (if c =? DQ then pushv c (split_fields_st 0 (WVal (negb quoted)) t)
+                 else if (c =? COMMA) && negb quoted then
+                   match t with [] => Ok [([], [])] | _ => newpair (split_fields_st 0 (WKey true 0 0) t) end
+                 else pushv c (split_fields_st 0 (WVal quoted) t)) = Ok ps).
+    { intros ps0 H0. destruct (c =? DQ).
+      - apply pushv_ok in H0 as [ps1 [H0 ->]]. rewrite (IHt _ _ H0). destruct ps1 as [|[? ?] ?]; reflexivity.
+      - destruct ((c =? COMMA) && negb quoted).
+        + destruct t as [|t0 t']; [exact H0|].
+          apply newpair_ok in H0 as [ps' [-> H0]]. rewrite (IHt _ _ H0). reflexivity.
+        + apply pushv_ok in H0 as [ps1 [H0 ->]]. rewrite (IHt _ _ H0). destruct ps1 as [|[? ?] ?]; reflexivity. }
+    destruct (c =? BSL); [|exact (OTHER _ H)].
+    destruct t as [|a t2]; [exact (OTHER _ H)|].
+    destruct ((a =? DQ) || (a =? BSL)); [|exact (OTHER _ H)].
+    apply pushv_ok in H as [ps1 [H ->]]. apply pushv_ok in H as [ps2 [H ->]].
+    eapply IH in H; [|cbn; lia]. rewrite H. destruct ps2 as [|[? ?] ?]; reflexivity.
+Qed.
+
+Lemma split_fields_klen0 klen fields ps :
+  split_fields klen fields = Ok ps -> split_fields 0 fields = Ok ps.
+Proof.
+  unfold split_fields. destruct fields; [auto|]. apply split_fields_st_klen0.
+Qed.
+
+Lemma unescape4_len l : blen (unescape4 l) <= blen l.
+Proof.
+  induction l as [l IH] using list_len_ind. destruct l as [|c t]; [cbn; lia|].
+  assert (IHt := IH t ltac:(cbn; lia)).
+  destruct (c =? BSL) eqn:Ec; cbn [unescape4]; rewrite Ec.
+  - destruct t as [|a t2]; [apply N.le_refl|]. destruct (is_esc_char a).
+    + assert (IH2 := IH t2 ltac:(cbn; lia)). rewrite !blen_cons. lia.
+    + rewrite (blen_cons c (a :: t2)), (blen_cons c). lia.
+  - rewrite !blen_cons. lia.
+Qed.
+
+(** * Unique (strictly sorted) tag keys in the series key *)
+Lemma bcompare_eq a : forall b, bcompare a b = Eq <-> a = b.
+Proof.
+  induction a as [|x a IH]; intros [|y b]; cbn; split; intro H; try reflexivity; try discriminate.
+  - destruct (N.compare x y) eqn:C; try discriminate. apply N.compare_eq in C. apply IH in H. congruence.
+  - inversion H; subst. rewrite N.compare_refl. apply IH. reflexivity.
+Qed.
+
+Lemma bcompare_antisym a : forall b, bcompare a b = CompOpp (bcompare b a).
+Proof.
+  induction a as [|x a IH]; intros [|y b]; cbn; try reflexivity.
+  rewrite (N.compare_antisym y x). destruct (N.compare y x); cbn; auto.
+Qed.
+
+Lemma bcompare_lt_trans a : forall b c, bcompare a b = Lt -> bcompare b c = Lt -> bcompare a c = Lt.
+Proof.
+  induction a as [|x a IH]; intros [|y b] [|z c]; cbn; try discriminate; auto.
+  destruct (N.compare x y) eqn:C1; destruct (N.compare y z) eqn:C2; intros H1 H2; try discriminate.
+  - apply N.compare_eq in C1, C2. subst. rewrite N.compare_refl. eauto.
+  - apply N.compare_eq in C1. subst. rewrite C2. reflexivity.
+  - apply N.compare_eq in C2. subst. rewrite C1. reflexivity.
+  - rewrite N.compare_lt_iff in C1, C2. assert (C3 : x < z) by lia. apply N.compare_lt_iff in C3.
+    rewrite C3. reflexivity.
+Qed.
+
+Definition ble (a b : bytes) : Prop := bcompare a b <> Gt.
+
+Lemma ble_trans a b c : ble a b -> ble b c -> ble a c.
+Proof.
+  unfold ble. intros H1 H2.
+  destruct (bcompare a b) eqn:E1; [| |congruence]; destruct (bcompare b c) eqn:E2; try congruence.
+  - apply bcompare_eq in E1, E2. subst. rewrite (proj2 (bcompare_eq c c) eq_refl). discriminate.
+  - apply bcompare_eq in E1. subst. rewrite E2. discriminate.
+  - apply bcompare_eq in E2. subst. rewrite E1. discriminate.
+  - rewrite (bcompare_lt_trans _ _ _ E1 E2). discriminate.
+Qed.
+
+Lemma strictly_sorted_nodup ks : strictly_sorted ks = true -> NoDup ks.
+Proof.
+  assert (G : forall ks, strictly_sorted ks = true ->
+                match ks with [] => True | a :: r => forall b, In b r -> bcompare a b = Lt end /\ NoDup ks).
+  { induction ks0 as [|a r IH]; [split; [auto|constructor]|].
+    intro H. cbn in H. destruct r as [|b r'].
+    - split; [intros b []|constructor; [intros []|constructor]].
+    - destruct (bcompare a b) eqn:C; try discriminate. destruct (IH H) as [H1 H2].
+      assert (L : forall x, In x (b :: r') -> bcompare a x = Lt).
+      { intros x [<-|Hx]; [exact C|]. eapply bcompare_lt_trans; eauto. }
+      split; [exact L|]. constructor; [|exact H2].
+      intro Hin. apply L in Hin. rewrite (proj2 (bcompare_eq a a) eq_refl) in Hin. discriminate. }
+  intro H. apply G in H. tauto.
+Qed.
+
+Lemma first_pass_sorted tags : first_pass tags = FPSorted -> strictly_sorted (map tag_key tags) = true.
+Proof.
+  induction tags as [|a r IH]; [reflexivity|]. cbn. destruct r as [|b r']; [reflexivity|].
+  cbn [map]. destruct (bcompare (tag_key a) (tag_key b)); try discriminate. exact IH.
+Qed.
+
+(** insertion sort: descending invariant of the reversed prefix *)
+Definition tle (a b : bytes) : Prop := ble (tag_key a) (tag_key b).
+
+Lemma SS_app {A} (R : A -> A -> Prop) a : forall b,
+  StronglySorted R (a ++ b) <->
+  StronglySorted R a /\ StronglySorted R b /\ (forall x y, In x a -> In y b -> R x y).
+Proof.
+  induction a as [|h a IH]; intro b; cbn.
+  - split; [intro H; repeat split; [constructor|exact H|intros x y []]|tauto].
+  - split.
+    + intro H. inversion H as [|? ? H1 H2]; subst. apply IH in H1 as [Ha [Hb Hab]].
+      rewrite Forall_app in H2. destruct H2 as [H2a H2b]. repeat split; auto.
+      * constructor; auto.
+      * intros x y [<-|Hx] Hy; [rewrite Forall_forall in H2b; auto|auto].
+    + intros [Ha [Hb Hab]]. inversion Ha as [|? ? H1 H2]; subst.
+      constructor; [apply IH; repeat split; auto|].
+      rewrite Forall_app. split; [exact H2|]. rewrite Forall_forall. intros y Hy. apply Hab; auto.
+Qed.
+
+Lemma SS_rev {A} (R : A -> A -> Prop) l :
+  StronglySorted (fun x y => R y x) l -> StronglySorted R (rev l).
+Proof.
+  induction l as [|h l IH]; intro H; cbn; [constructor|].
+  inversion H as [|? ? H1 H2]; subst. apply SS_app. repeat split; auto.
+  - constructor; constructor.
+  - intros x y Hx [<-|[]]. apply in_rev in Hx. rewrite Forall_forall in H2. auto.
+Qed.
+
+Lemma insert_tag_spec x : forall l,
+  StronglySorted (fun a b => tle b a) l ->
+  StronglySorted (fun a b => tle b a) (insert_tag x l) /\
+  (forall y, In y (insert_tag x l) <-> y = x \/ In y l).
+Proof.
+  induction l as [|y r IH]; intro H; cbn.
+  - split; [constructor; constructor|]. intro z; cbn; intuition congruence.
+  - inversion H as [|? ? H1 H2]; subst.
+    destruct (bcompare (tag_key x) (tag_key y)) eqn:C.
+    + split; [|intro z; cbn; intuition congruence]. constructor; [exact H|]. constructor.
+      * unfold tle, ble. rewrite bcompare_antisym, C. discriminate.
+      * rewrite Forall_forall in *. intros z Hz. unfold tle in *. eapply ble_trans; [apply H2; exact Hz|].
+        unfold ble. rewrite bcompare_antisym, C. discriminate.
+    + destruct (IH H1) as [S I]. split.
+      * constructor; [exact S|]. rewrite Forall_forall in *. intros z Hz. apply I in Hz as [->|Hz]; [|auto].
+        unfold tle, ble. rewrite C. discriminate.
+      * intro z; cbn. rewrite I. intuition congruence.
+    + split; [|intro z; cbn; intuition congruence]. constructor; [exact H|]. constructor.
+      * unfold tle, ble. rewrite bcompare_antisym, C. discriminate.
+      * rewrite Forall_forall in *. intros z Hz. unfold tle in *. eapply ble_trans; [apply H2; exact Hz|].
+        unfold ble. rewrite bcompare_antisym, C. discriminate.
+Qed.
+
+Lemma insertion_sort_spec tags :
+  StronglySorted tle (insertion_sort tags) /\ (forall y, In y (insertion_sort tags) <-> In y tags).
+Proof.
+  unfold insertion_sort.
+  assert (G : forall tags acc, StronglySorted (fun a b => tle b a) acc ->
+            StronglySorted (fun a b => tle b a) (fold_left (fun acc x => insert_tag x acc) tags acc) /\
+            (forall y, In y (fold_left (fun acc x => insert_tag x acc) tags acc) <-> In y tags \/ In y acc)).
+  { induction tags0 as [|x r IH]; intros acc H; cbn; [split; [exact H|tauto]|].
+    destruct (insert_tag_spec x acc H) as [S I]. destruct (IH _ S) as [S' I'].
+    split; [exact S'|]. intro y. rewrite I', I. intuition congruence. }
+  destruct (G tags [] ltac:(constructor)) as [S I].
+  split; [apply SS_rev; exact S|]. intro y. rewrite <- in_rev, I. cbn. tauto.
+Qed.
+
+Lemma sorted_nodup_strict l :
+  StronglySorted tle l -> adjacent_dup l = false -> strictly_sorted (map tag_key l) = true.
+Proof.
+  induction l as [|a r IH]; [reflexivity|]. intros S D. cbn in *. destruct r as [|b r']; [reflexivity|].
+  inversion S as [|? ? S1 S2]; subst. apply orb_false_iff in D as [D1 D2].
+  cbn [map]. inversion S2 as [|? ? Hab _]; subst. unfold tle, ble in Hab.
+  destruct (bcompare (tag_key a) (tag_key b)) eqn:C; [|auto|congruence].
+  apply bcompare_eq in C. unfold bytes_eqb in D1.
+  rewrite (proj2 (list_eqb_spec N.eqb N.eqb_eq _ _) C) in D1. discriminate.
+Qed.
+
+Lemma build_key_nil m : build_key m [] = m.
+Proof. unfold build_key. cbn. apply app_nil_r. Qed.
+
+Lemma scan_key_tags buf key r :
+  scan_key buf = Ok (key, r) ->
+  exists m tags, key = build_key m tags /\ strictly_sorted (map tag_key tags) = true /\
+                 forallb (fun t => negb (is_reserved (tag_key t))) tags = true.
+Proof.
+  unfold scan_key. destruct (scan_meas (skip_ws buf)) as [m rest0|m rest0| |] eqn:M; try discriminate.
+  - destruct (scan_tags KFirst 0 rest0) as [[tags rest]|]; [|discriminate].
+    destruct (existsb (fun t => is_reserved (tag_key t)) tags) eqn:RS; [discriminate|].
+    assert (RS' : forall l, existsb (fun t => is_reserved (tag_key t)) l = false ->
+                  forallb (fun t => negb (is_reserved (tag_key t))) l = true).
+    { induction l as [|x l IH]; cbn; [auto|]. intro H. apply orb_false_iff in H as [H1 H2]. rewrite H1. cbn. apply IH; exact H2. }
+    destruct (first_pass tags) eqn:FP; try discriminate.
+    + intro H; inversion H; subst. exists m, tags. repeat split; auto. apply first_pass_sorted; exact FP.
+    + destruct (adjacent_dup (insertion_sort tags)) eqn:AD; [discriminate|].
+      intro H; inversion H; subst. exists m, (insertion_sort tags).
+      destruct (insertion_sort_spec tags) as [S I]. repeat split; auto.
+      * apply sorted_nodup_strict; auto.
+      * apply RS' in RS. rewrite forallb_forall in *. intros x Hx. apply RS. apply I. exact Hx.
+  - intro H; inversion H; subst. exists key, []. rewrite build_key_nil. auto.
+Qed.
+
+(** * First field key non-empty when the line has no TAB / NUL byte *)
+Definition no_tab_nul (l : bytes) : bool := forallb (fun c => negb ((c =? TAB) || (c =? 0))) l.
+
+Lemma mcons_incl c r : forall m rest, (mcons c r = MFld m rest \/ mcons c r = MTag m rest) ->
+  exists m', r = MFld m' rest \/ r = MTag m' rest.
+Proof. destruct r; cbn; intros m0 rest0 [H|H]; inversion H; subst; eauto. Qed.
+
+Lemma scan_meas_loop_rest : forall l prev m rest,
+  (scan_meas_loop prev l = MFld m rest \/ scan_meas_loop prev l = MTag m rest) -> incl rest l.
+Proof.
+  induction l as [|c t IH]; intros prev m rest H; cbn in H; [destruct H; discriminate|].
+  destruct (prev =? BSL).
+  - apply mcons_incl in H as [m' H]. apply IH in H. apply incl_tl. exact H.
+  - destruct (c =? COMMA); [destruct H as [H|H]; inversion H; subst; apply incl_tl, incl_refl|].
+    destruct (c =? SP); [destruct H as [H|H]; inversion H; subst; apply incl_refl|].
+    apply mcons_incl in H as [m' H]. apply IH in H. apply incl_tl. exact H.
+Qed.
+
+Lemma scan_meas_loop_sp : forall l prev m rest,
+  scan_meas_loop prev l = MFld m rest -> exists r', rest = SP :: r'.
+Proof.
+  induction l as [|c t IH]; intros prev m rest H; cbn in H; [discriminate|].
+  destruct (prev =? BSL).
+  - apply mcons_MFld in H as [m' [H _]]. eauto.
+  - destruct (c =? COMMA); [discriminate|].
+    destruct (c =? SP) eqn:E; [inversion H; subst; apply N.eqb_eq in E; subst; eauto|].
+    apply mcons_MFld in H as [m' [H _]]. eauto.
+Qed.
+
+Lemma push_ok c r x : push c r = Ok x -> exists y, r = Ok y /\ snd x = snd y.
+Proof. destruct r as [[[|s ss] rest]|]; cbn; intro H; inversion H; subst; eauto. Qed.
+Lemma newseg_ok r x : newseg r = Ok x -> exists y, r = Ok y /\ snd x = snd y.
+Proof. destruct r as [[ss rest]|]; cbn; intro H; inversion H; subst; eauto. Qed.
+
+Lemma scan_tags_rest : forall l st prev tags rest,
+  scan_tags st prev l = Ok (tags, rest) -> incl rest l /\ exists r', rest = SP :: r'.
+Proof.
+  induction l as [|c t IH]; intros st prev tags rest H; [destruct st; discriminate|].
+  assert (P : forall st' prev' x, scan_tags st' prev' t = Ok x -> incl (snd x) (c :: t) /\ exists r', snd x = SP :: r').
+  { intros st' prev' [tg rs] Hx. apply IH in Hx as [I S]. split; [apply incl_tl; exact I|exact S]. }
+  destruct st; cbn [scan_tags] in H.
+  - destruct ((c =? SP) || (c =? COMMA) || (c =? EQ)); [discriminate|].
+    apply push_ok in H as [y [H E]]. cbn in E. subst. eapply P; eauto.
+  - destruct (((c =? SP) || (c =? COMMA)) && negb (prev =? BSL)); [discriminate|].
+    destruct ((c =? EQ) && negb (prev =? BSL)); apply push_ok in H as [y [H E]]; cbn in E; subst; eapply P; eauto.
+  - destruct ((c =? COMMA) || (c =? SP)); [discriminate|].
+    apply push_ok in H as [y [H E]]. cbn in E. subst. eapply P; eauto.
+  - destruct ((c =? EQ) && negb (prev =? BSL)); [discriminate|].
+    destruct ((c =? COMMA) && negb (prev =? BSL)).
+    + apply newseg_ok in H as [y [H E]]. cbn in E. subst. eapply P; eauto.
+    + destruct ((c =? SP) && negb (prev =? BSL)) eqn:E.
+      * inversion H; subst. apply andb_true_iff in E as [E _]. apply N.eqb_eq in E. subst.
+        split; [apply incl_refl|eauto].
+      * apply push_ok in H as [y [H E']]. cbn in E'. subst. eapply P; eauto.
+Qed.
+
+Lemma skip_ws_incl l : incl (skip_ws l) l.
+Proof.
+  induction l as [|c t IH]; cbn; [apply incl_refl|].
+  destruct (is_ws c); [apply incl_tl; exact IH|apply incl_refl].
+Qed.
+
+Lemma scan_key_rest buf key r :
+  scan_key buf = Ok (key, r) -> incl r buf /\ exists r', r = SP :: r'.
+Proof.
+  unfold scan_key. destruct (scan_meas (skip_ws buf)) as [m rest0|m rest0| |] eqn:M; try discriminate.
+  - destruct (scan_tags KFirst 0 rest0) as [[tags rest]|] eqn:T; [|discriminate].
+    destruct (existsb _ tags); [discriminate|].
+    assert (G : incl rest buf /\ exists r', rest = SP :: r').
+    { apply scan_tags_rest in T as [I S]. split; [|exact S].
+      unfold scan_meas in M. destruct (skip_ws buf) as [|c t] eqn:SK; [discriminate|].
+      destruct (c =? COMMA); [discriminate|].
+      apply mcons_MTag in M as [m' [M _]].
+      assert (I2 : incl rest0 t) by (eapply scan_meas_loop_rest; eauto).
+      intros x Hx. apply (skip_ws_incl buf). rewrite SK. right. auto. }
+    destruct (first_pass tags); try discriminate.
+    + intro H; inversion H; subst; exact G.
+    + destruct (adjacent_dup _); [discriminate|]. intro H; inversion H; subst; exact G.
+  - intro H; inversion H; subst.
+    unfold scan_meas in M. destruct (skip_ws buf) as [|c t] eqn:SK; [discriminate|].
+    destruct (c =? COMMA); [discriminate|].
+    apply mcons_MFld in M as [m' [M _]]. split.
+    + assert (I2 : incl r t) by (eapply scan_meas_loop_rest; eauto).
+      intros x Hx. apply (skip_ws_incl buf). rewrite SK. right. auto.
+    + eapply scan_meas_loop_sp; eauto.
+Qed.
+
+Lemma no_tab_nul_incl a b : incl a b -> no_tab_nul b = true -> no_tab_nul a = true.
+Proof. unfold no_tab_nul. rewrite !forallb_forall. auto. Qed.
+
+Lemma skip_ws_last_sp : forall l, no_tab_nul l = true -> skip_ws_last SP l = SP.
+Proof.
+  induction l as [|c t IH]; cbn; [auto|]. intro H. apply andb_true_iff in H as [Hc Ht].
+  unfold is_ws. destruct (c =? SP) eqn:E; cbn.
+  - apply N.eqb_eq in E; subst. auto.
+  - apply negb_true_iff in Hc. rewrite Hc. reflexivity.
+Qed.
+
+Lemma fcons_ok c r a rest : fcons c r = Ok (a, rest) -> exists a', a = c :: a' /\ r = Ok (a', rest).
+Proof. destruct r as [[a0 r0]|]; cbn; intro H; inversion H; eauto. Qed.
+
+Lemma fields_fin_ok q e c rest a r : fields_fin q e c rest = Ok (a, r) -> a = [].
+Proof. unfold fields_fin. destruct q; [discriminate|]. destruct (_ || _); [discriminate|]. intro H; inversion H; auto. Qed.
+
+(** if scanFields starts at an '=' right after a skipped SPACE it fails ("missing field key") *)
+Lemma scan_fields_not_eq r1 f0 fields r2 :
+  no_tab_nul r1 = true -> (exists r', r1 = SP :: r') ->
+  scan_fields r1 = Ok (f0 :: fields, r2) -> (f0 =? EQ) = false.
+Proof.
+  intros NT [r' ->] H. unfold scan_fields in H.
+  cbn [skip_ws_last skip_ws] in H. unfold is_ws in H. rewrite N.eqb_refl in H. cbn [orb] in H.
+  cbn in NT. rewrite (skip_ws_last_sp r' NT) in H.
+  destruct (skip_ws r') as [|c t] eqn:SK.
+  - cbn in H. inversion H.
+  - cbn [scan_fields_st] in H. destruct (c =? EQ) eqn:E.
+    + apply N.eqb_eq in E. subst c. exfalso. cbn in H. discriminate.
+    + assert (FIN : forall x, x = Ok (f0 :: fields, r2) ->
+               (exists r, x = fcons c r) \/ (exists q e m rest, x = fields_fin q e m rest) \/ (exists e, x = Err e) ->
+               (f0 =? EQ) = false).
+      { intros x Hx [[r ->]|[[q [e [m [rest ->]]]]|[e ->]]].
+        - apply fcons_ok in Hx as [a' [Ha _]]. inversion Ha; subst. exact E.
+        - apply fields_fin_ok in Hx. discriminate.
+        - discriminate. }
+      apply (FIN _ H). clear H FIN.
+      destruct (c =? BSL); [destruct t as [|a t2]|]; cbn [andb negb orb];
+        repeat match goal with |- context [if ?b then _ else _] => destruct b end; eauto 8.
+Qed.
+
+Lemma fields_of_first_key f0 fields ps :
+  (f0 =? EQ) = false -> split_fields 0 (f0 :: fields) = Ok ps ->
+  exists k v r, fields_of (f0 :: fields) = (k, v) :: r /\ k <> [].
+Proof.
+  intros E H. unfold fields_of. rewrite H. unfold split_fields in H. cbn [split_fields_st] in H.
+  rewrite E in H. cbn [andb] in H. apply pushk_ok in H as [ps0 [_ ->]].
+  destruct ps0 as [|[k v] ps']; cbn [map fst snd]; eexists _, _, _; (split; [reflexivity|]);
+    apply unescape4_nonempty; discriminate.
+Qed.
+
+(** * Line splitting loses no byte *)
+Lemma scan_line_app : forall l q f e c b r, scan_line q f e c l = (b, r) -> l = b ++ r.
+Proof.
+  induction l as [l IH] using list_len_ind. intros q f e c b r H.
+  destruct l as [|x t]; [cbn in H; inversion H; reflexivity|].
+  assert (IHt : forall q f e c b r, scan_line q f e c t = (b, r) -> t = b ++ r)
+    by (intros; eapply IH; eauto; cbn; lia).
+  assert (PC : forall y (p : bytes * bytes) tl, (tl = fst p ++ snd p) -> forall b r, pcons y p = (b, r) -> y :: tl = b ++ r).
+  { intros y [pa pb] tl E b0 r0 Hp. unfold pcons in Hp. cbn in *. inversion Hp; subst. reflexivity. }
+  assert (SL : forall q f e c l', (forall q f e c b r, scan_line q f e c l' = (b, r) -> l' = b ++ r) ->
+                 l' = fst (scan_line q f e c l') ++ snd (scan_line q f e c l')).
+  { intros q0 f0 e0 c0 l' Hl. destruct (scan_line q0 f0 e0 c0 l') eqn:S. cbn. eapply Hl; eauto. }
+  assert (NORMAL :
+    (let fields' := f || (x =? SP) in
+      if fields' && negb q && (x =? EQ) then pcons x (scan_line q fields' (e + 1) c t)
+      else if fields' && negb q && (x =? COMMA) then pcons x (scan_line q fields' e (c + 1) t)
+      else if fields' && (x =? DQ) && (c <? e) then pcons x (scan_line (negb q) fields' e c t)
+      else if (x =? NL) && negb q then ([], x :: t)
+      else pcons x (scan_line q fields' e c t)) = (b, r) -> x :: t = b ++ r).
+  { cbv zeta.
+    repeat match goal with |- context [if ?b then _ else _] => destruct b end; intro H0;
+      try (eapply PC; [|exact H0]; apply SL; exact IHt).
+    inversion H0; reflexivity. }
+  cbn [scan_line] in H. destruct (x =? BSL); [|exact (NORMAL H)].
+  destruct t as [|a [|a2 t2]]; [exact (NORMAL H)|exact (NORMAL H)|].
+  destruct (scan_line q f e c (a2 :: t2)) as [b2 r2] eqn:S2.
+  unfold pcons in H; cbn in H; inversion H; subst. cbn. do 2 f_equal.
+  eapply IH; [|exact S2]. cbn; lia.
+Qed.
+
+Lemma split_blocks_incl : forall fuel buf block, In block (split_blocks fuel buf) -> incl block buf.
+Proof.
+  induction fuel as [|f IH]; intros buf block H; [destruct H|].
+  cbn [split_blocks] in H. destruct buf as [|x t]; [destruct H|].
+  destruct (scan_line false false 0 0 (x :: t)) as [b r] eqn:S. apply scan_line_app in S.
+  destruct H as [<-|H].
+  - rewrite S. apply incl_appl, incl_refl.
+  - apply IH in H. rewrite S. apply incl_appr. destruct r as [|y r']; [exact H|]. apply incl_tl. exact H.
+Qed.
+
+Lemma strip_nl_incl l : incl (strip_nl l) l.
+Proof.
+  unfold strip_nl, frev. rewrite rev_append_rev, app_nil_r.
+  destruct (rev l) as [|c r] eqn:R; [apply incl_refl|].
+  destruct (c =? NL); [|apply incl_refl].
+  rewrite rev_append_rev, app_nil_r. intros x Hx. apply in_rev in Hx.
+  apply in_rev. rewrite R. right. exact Hx.
+Qed.
+
+Lemma candidate_incl block t : candidate block = Some t -> incl t block.
+Proof.
+  unfold candidate. destruct (skip_ws block) as [|c r] eqn:S; [discriminate|].
+  destruct (c =? HASH); [discriminate|]. intro H; inversion H; subst.
+  eapply incl_tran; [apply strip_nl_incl|]. rewrite <- S. apply skip_ws_incl.
+Qed.
+
+Lemma candidate_lines_incl buf t : In t (candidate_lines buf) -> incl t buf.
+Proof.
+  unfold candidate_lines. intro H. apply In_filter_some in H. apply in_map_iff in H as [block [C B]].
+  eapply incl_tran; [eapply candidate_incl; eauto|eapply split_blocks_incl; eauto].
+Qed.
+
+(** * The assembled statements *)
+Definition fields_within (v : pview) : Prop :=
+  Forall (fun kv => blen (v_key v) + 4 + blen (fst kv) <= MaxKeyLength) (v_fields v).
+
+Lemma parse_point_wf prec dflt t p :
+  time_ok (trunc_time dflt prec) = true ->
+  parse_point prec dflt t = Ok p ->
+  v_name (view p) <> [] /\
+  v_fields (view p) <> [] /\
+  (exists m tags, v_key (view p) = build_key m tags /\ strictly_sorted (map tag_key tags) = true /\
+                  NoDup (map tag_key tags) /\
+                  forallb (fun t => negb (is_reserved (tag_key t))) tags = true) /\
+  fields_within (view p) /\ blen (v_key (view p)) <= MaxKeyLength /\
+  time_ok (v_time (view p)) = true.
+Proof.
+  intros HD H. apply parse_point_inv in H as [r1 [r2 [ts [r3 [ps [K [KN [KL [F [FN [W [T TT]]]]]]]]]]]].
+  destruct (scan_key_head _ _ _ K) as [c [k' [EK Hc]]].
+  destruct (split_fields_bound _ _ _ W) as [WB WN]. pose proof (split_fields_klen0 _ _ _ W) as W0.
+  unfold fields_within, view; cbn [v_name v_fields v_key v_time].
+  split; [rewrite EK; apply name_of_nonempty; exact Hc|].
+  split.
+  { unfold fields_of. rewrite W0. specialize (WN FN). destruct ps; [congruence|discriminate]. }
+  split.
+  { destruct (scan_key_tags _ _ _ K) as [m [tags [E [S R]]]]. exists m, tags. repeat split; auto.
+    apply strictly_sorted_nodup; exact S. }
+  split.
+  { unfold fields_of. rewrite W0.
+    rewrite Forall_forall in *. intros kv Hkv. apply in_map_iff in Hkv as [[k v] [<- Hin]].
+    cbn [fst]. specialize (WB _ Hin). unfold fbound in WB. cbn [fst] in WB.
+    pose proof (unescape4_len k). lia. }
+  split; [apply N.leb_le; exact KL|].
+  destruct TT as [[_ ->]|[v [_ [SC _]]]]; [exact HD|eapply safe_calc_time_ok; eauto].
+Qed.
+
+Lemma parsed_points_wf prec dflt buf p :
+  time_ok (trunc_time dflt prec) = true ->
+  In p (fst (parse_points prec dflt buf)) ->
+  v_name (view p) <> [] /\
+  v_fields (view p) <> [] /\
+  (exists m tags, v_key (view p) = build_key m tags /\ strictly_sorted (map tag_key tags) = true /\
+                  NoDup (map tag_key tags) /\
+                  forallb (fun t => negb (is_reserved (tag_key t))) tags = true) /\
+  fields_within (view p) /\ blen (v_key (view p)) <= MaxKeyLength /\
+  time_ok (v_time (view p)) = true.
+Proof.
+  intros HD H. unfold parse_points in H. apply parse_lines_point in H as [t [_ H]].
+  eapply parse_point_wf; eauto.
+Qed.
+
+Lemma parsed_points_named_field prec dflt buf p :
+  no_tab_nul buf = true ->
+  In p (fst (parse_points prec dflt buf)) ->
+  exists k v r, v_fields (view p) = (k, v) :: r /\ k <> [].
+Proof.
+  intros NT H. unfold parse_points in H. apply parse_lines_point in H as [t [Ht H]].
+  apply candidate_lines_incl in Ht.
+  apply parse_point_inv in H as [r1 [r2 [ts [r3 [ps [K [KN [KL [F [FN [W _]]]]]]]]]]].
+  destruct (scan_key_rest _ _ _ K) as [I S].
+  destruct (rp_fields p) as [|f0 fields] eqn:EF; [congruence|].
+  assert (E : (f0 =? EQ) = false).
+  { eapply scan_fields_not_eq; [|exact S|exact F].
+    eapply no_tab_nul_incl; [|exact NT]. eapply incl_tran; eauto. }
+  unfold view; cbn [v_fields]. rewrite EF. eapply fields_of_first_key; eauto. eapply split_fields_klen0; eauto.
+Qed.
+
+(** the known defect: a field with an EMPTY key is accepted after TAB (or NUL) *)
+Definition tab_witness : bytes := [109; 32; 9; 61; 49].   (* "m \t=1" *)
+Lemma named_field_refuted :
+  exists p, fst (parse_points P_ns 0 tab_witness) = [p] /\ snd (parse_points P_ns 0 tab_witness) = [] /\
+            v_fields (view p) = [([], VFloat 4607182418800017408)] /\ wf_view (view p) = false.
+Proof. eexists. vm_compute. repeat split. Qed.
+
+Lemma errors_name_rejected_lines prec dflt buf :
+  map fst (snd (parse_points prec dflt buf))
+    = filter (fun t => negb (is_ok (parse_point prec dflt t))) (candidate_lines buf) /\
+  fst (parse_points prec dflt buf) = oks (map (parse_point prec dflt) (candidate_lines buf)).
+Proof. unfold parse_points. destruct (parse_lines_spec prec dflt (candidate_lines buf)); auto. Qed.
+
+Lemma candidate_lines_spec buf t :
+  In t (candidate_lines buf) <->
+  exists block, In block (split_blocks (S (length buf)) buf) /\ candidate block = Some t.
+Proof.
+  unfold candidate_lines. rewrite In_filter_some, in_map_iff. split; intros [b [H1 H2]]; eauto.
+Qed.
+
+Lemma http_parse_spec prec dflt buf :
+  match http_parse prec dflt buf with
+  | HErr r => r <> [] /\ r = map fst (snd (parse_points prec dflt buf))
+  | HOk n => snd (parse_points prec dflt buf) = [] /\ n = N.of_nat (length (fst (parse_points prec dflt buf)))
+  end.
+Proof.
+  unfold http_parse. destruct (parse_points prec dflt buf) as [ps [|e es]]; cbn; auto.
+  split; [discriminate|reflexivity].
+Qed.
+
+(** the judge accepts the model's own output whenever it is well-formed (sanity of the oracle) *)
+Lemma wf_view_sound v : wf_view v = true ->
+  v_name v <> [] /\ NoDup (map fst (v_tags v)) /\ fields_within v /\ time_ok (v_time v) = true.
+Proof.
+  unfold wf_view. rewrite !andb_true_iff. intros [[[[H1 H2] H3] H4] H5].
+  split; [destruct (v_name v); [discriminate|discriminate]|].
+  split.
+  { clear -H3. induction (map fst (v_tags v)) as [|k r IH]; [constructor|].
+    cbn in H3. apply andb_true_iff in H3 as [A B]. constructor; [|auto].
+    intro Hin. apply negb_true_iff in A. assert (existsb (bytes_eqb k) r = true); [|congruence].
+    apply existsb_exists. exists k. split; [exact Hin|].
+    apply (list_eqb_spec N.eqb N.eqb_eq). reflexivity. }
+  split; [|exact H5].
+  unfold fields_within. rewrite Forall_forall. rewrite forallb_forall in H4. intros kv Hkv.
+  specialize (H4 _ Hkv). apply N.leb_le in H4. exact H4.
 Qed.
